@@ -19,6 +19,7 @@ import (
 // ---------------------------------------------------------------------------
 
 type Renderer struct {
+	cuts int
 	fn    *ssa.Function
 	memo  map[ssa.Value]string
 	busy  map[ssa.Value]bool
@@ -213,12 +214,18 @@ func (R *Renderer) V(v ssa.Value) string {
 		return s
 	}
 	if R.busy[v] {
+		R.cuts++
 		return "…"
 	}
 	R.busy[v] = true
+	c0 := R.cuts
 	s := R.render(v)
 	delete(R.busy, v)
-	R.memo[v] = s
+	// a rendering that was cut at a value still being rendered further out depends on that
+	// context: it is not the canonical term of v and must not be remembered as such
+	if R.cuts == c0 {
+		R.memo[v] = s
+	}
 	return s
 }
 
